@@ -41,16 +41,16 @@ type Config struct {
 	Main       *ssa.Package
 	Harness    string // name of a func() in Main
 	Workers    int
-	Solver     string   // primary backend name
-	Second     string   // cross-check backend for deciding queries ("" = none)
-	TimeoutMS  int      // per query
-	MaxDepth   int      // decisions per path
-	MaxSteps   int64    // SSA instructions per path
-	MaxPaths   int      // stop after that many completed paths (0 = unlimited)
+	Solver     string // primary backend name
+	Second     string // cross-check backend for deciding queries ("" = none)
+	TimeoutMS  int    // per query
+	MaxDepth   int    // decisions per path
+	MaxSteps   int64  // SSA instructions per path
+	MaxPaths   int    // stop after that many completed paths (0 = unlimited)
 	Deadline   time.Time
 	SkipInit   []string // extra package path prefixes whose init is skipped
 	Trace      bool
-	Witnesses  int // number of satisfying end-of-path models to keep
+	Witnesses  int  // number of satisfying end-of-path models to keep
 	NoSpec     bool // disable if-conversion
 	CrossCheck bool // answer every deciding query with both solvers
 }
@@ -64,28 +64,29 @@ type PathInfo struct {
 
 // Result is the outcome of exploring one harness.
 type Result struct {
-	Harness     string
-	Paths       int // completed feasible paths (incl. those ending in expected panics)
-	Infeasible  int
-	Incomplete  []PathInfo // unmodelled / unwound / unknown / engine
-	Violations  []*Violation
-	Reached     map[string]int
-	Branches    int
-	Forced      int
-	Concretized int
-	Merged      int
-	Deciding    int
-	Disagree    int
-	Fallbacks   int
-	Steps       int64
-	SolverStats map[string]smt.Stats
-	Witnesses   []Witness
-	Notes       []string
-	Stubs       []string
-	Wall        float64
-	Exhausted   bool // worklist ran empty (not stopped by MaxPaths/deadline)
-	Functions   map[string]int64
-	ForkSites   map[string]int
+	Harness      string
+	Paths        int // completed feasible paths (incl. those ending in expected panics)
+	Infeasible   int
+	Incomplete   []PathInfo // unmodelled / unwound / unknown / engine
+	Violations   []*Violation
+	Reached      map[string]int
+	Branches     int
+	Forced       int
+	Concretized  int
+	Merged       int
+	QuickDecided int
+	Deciding     int
+	Disagree     int
+	Fallbacks    int
+	Steps        int64
+	SolverStats  map[string]smt.Stats
+	Witnesses    []Witness
+	Notes        []string
+	Stubs        []string
+	Wall         float64
+	Exhausted    bool // worklist ran empty (not stopped by MaxPaths/deadline)
+	Functions    map[string]int64
+	ForkSites    map[string]int
 }
 
 // Witness is a satisfying model of a completed path with the observations
@@ -270,6 +271,7 @@ func Explore(cfg Config) *Result {
 			res.Forced += ex.ForcedCount
 			res.Concretized += ex.Concretized
 			res.Merged += ex.Merged
+			res.QuickDecided += ex.QuickDecided
 			res.Deciding += ex.DecidingQ
 			res.Disagree += ex.Disagree
 			res.Fallbacks += ex.Fallbacks
@@ -351,18 +353,18 @@ func collectStats() map[string]smt.Stats {
 // runPath executes the harness once along prefix.
 func runPath(cfg *Config, fn *ssa.Function, prefix []decision, solver, second *smt.Solver) (ex *Exec, kind, msg string) {
 	ex = &Exec{
-		ctx:        smt.NewCtx(),
-		solver:     solver,
-		second:     second,
-		prefix:     prefix,
-		MaxDepth:   cfg.MaxDepth,
-		MaxSteps:   cfg.MaxSteps,
-		reached:    map[string]bool{},
-		stubs:      map[string]value{},
-		drawBounds: map[string]int64{},
-		funcs:      map[string]int64{},
-		modelOK:    true,
-		model:      map[string]uint64{},
+		ctx:         smt.NewCtx(),
+		solver:      solver,
+		second:      second,
+		prefix:      prefix,
+		MaxDepth:    cfg.MaxDepth,
+		MaxSteps:    cfg.MaxSteps,
+		reached:     map[string]bool{},
+		stubs:       map[string]value{},
+		drawBounds:  map[string]int64{},
+		funcs:       map[string]int64{},
+		modelOK:     true,
+		model:       map[string]uint64{},
 		wantWitness: cfg.Witnesses > 0,
 		crossCheck:  cfg.CrossCheck,
 		rewound:     -1,
